@@ -27,7 +27,16 @@ func replayProfile() sim.Profile {
 // network's; any delivery of bytes accepted before is rejected; GetNonce follows the model.
 func TestC04(t *testing.T) {
 	rapid.Check(t, func(t *rapid.T) {
-		h := newHistory(t, sim.DefaultOpts(), replayProfile(), sim.BlockOpts{MaxTxs: 8})
+		wo := sim.DefaultOpts()
+		crowd := 0
+		if sim.U(t, "crowd", 32) == 0 {
+			// more than ten thousand accounts, all read inside every Commit before the senders': a cache
+			// that releases entries under pressure must not bring back an old nonce
+			crowd = 10400
+			wo.ExtraAccounts = crowd
+		}
+		h := newHistory(t, wo, replayProfile(), sim.BlockOpts{MaxTxs: 8})
+		defer queryLoad(t, h, crowd)()
 		accepted := map[string]bool{}
 		replays, outOfOrder := 0, 0
 		// reference nonce per sender, kept by the harness: genesis value, +1 per accepted transaction
